@@ -6,6 +6,7 @@ import Cellml.Engine.Equals
 import Cellml.Engine.Annot
 import Cellml.Engine.Repair
 import Cellml.Engine.Clone
+import Cellml.Engine.Heap
 open Cellml
 
 /-- line-protocol loop: one answer per input line -/
@@ -36,6 +37,7 @@ def main (args : List String) : IO UInt32 := do
   match args with
   | ["numpos"] => loop stdin stdout Engine.Num.posAnswer; return 0
   | ["num"] => loop stdin stdout numLine; return 0
+  | ["heap"] => loop stdin stdout Engine.Heap.answer; return 0
   | ["clone"] => loop stdin stdout Engine.Clone.answer; return 0
   | ["repair"] => loop stdin stdout Engine.Repair.answer; return 0
   | ["annot"] => loop stdin stdout Engine.Annot.answer; return 0
